@@ -129,7 +129,6 @@ func (c *Cmd) Start() error {
 					line = append(line, b[0])
 					if b[0] == '\n' {
 						*sc.OutReceived = append(*sc.OutReceived, string(line))
-						vsync.Event("helper-received:" + strings.TrimSpace(string(line)))
 						line = nil
 					}
 				}
